@@ -4,6 +4,8 @@ package c16
 // config server can supply it -> blockrelay.UnmarshalJSON (what fetchExecutionConfig does with the
 // fetched bytes) -> ProposerConfig for a validator (what every auction, registration round and
 // proposal preparation does with the active configuration) -> String() (what the trace logging does).
+// Entry point "execdoc": the same path for the WHOLE-DOCUMENT shapes (null, empty, scalars, arrays,
+// version-only objects, trailing data ...).
 
 import (
 	"context"
@@ -185,15 +187,27 @@ func c16ExecV1Doc(sh map[string]string) string {
 	return c16Obj(m...)
 }
 
-func c16RunExec(doc string) c16Res {
-	ctx := context.Background()
+// c16RunExec: blockrelay.UnmarshalJSON, and - if the decoder handed over a configuration - what every
+// user of a configuration does with it (spec: Decoded, then Use("lookup")).
+func c16RunExec(ctx context.Context, doc string) c16Res {
 	cfg, err := blockrelay.UnmarshalJSON([]byte(doc))
 	if err != nil {
+		c16Decoded(ctx, false, err.Error())
 		return c16Err("unmarshal: " + err.Error())
 	}
 	if cfg == nil {
+		c16Decoded(ctx, false, "nil configuration without error")
 		return c16Err("nil configuration without error")
 	}
+	// The caller has been told that this is a configuration (the interface value is not nil, which is
+	// all that the block relay service looks at), so it will be used.
+	c16Decoded(ctx, true, fmt.Sprintf("%T", cfg))
+	res := c16LookupExec(ctx, cfg)
+	c16Used(ctx, "lookup", res)
+	return res
+}
+
+func c16LookupExec(ctx context.Context, cfg blockrelay.ExecutionConfigurator) c16Res {
 	var fallbackFee bellatrix.ExecutionAddress
 	fallbackFee[0] = 0xfa
 	// what the configuration is used for: proposer settings of a controlled validator, twice (the
@@ -235,7 +249,84 @@ func c16RunExec(doc string) c16Res {
 	return c16OK(fmt.Sprintf("relays=%d", relays))
 }
 
+// c16ValidDoc is a complete, benign document of the given version naming one relay.
+func c16ValidDoc(version string, relay string) string {
+	addr, _ := json.Marshal(relay)
+	if version == "v1" {
+		builder := fmt.Sprintf(`"builder":{"enabled":true,"grace":"100","relays":[%s]}`, addr)
+		return fmt.Sprintf(`{"default_config":{"fee_recipient":"%s","gas_limit":"30000000",%s},"proposer_config":{"%s":{"fee_recipient":"%s",%s}}}`,
+			c16Fee1, builder, c16AccountPubkey(1).String(), c16Fee2, builder)
+	}
+	return fmt.Sprintf(`{"version":2,"fee_recipient":"%s","gas_limit":"30000000","grace":"0","min_value":"0","relays":{%s:{}},`+
+		`"proposers":[{"proposer":"^Test wallet/Interop 1$","fee_recipient":"%s"}]}`, c16Fee1, addr, c16Fee2)
+}
+
+// c16WholeDoc builds the content of the configuration source for a whole-document shape
+// (Robustness!DocShapes); relay is the address written into the valid documents.
+func c16WholeDoc(kind string, relay string) string {
+	v2, v1 := c16ValidDoc("v2", relay), c16ValidDoc("v1", relay)
+	switch kind {
+	case "null":
+		return "null"
+	case "nullpadded":
+		return " null\n"
+	case "empty":
+		return ""
+	case "whitespace":
+		return " \n\t \n"
+	case "emptyobj":
+		return "{}"
+	case "emptyarr":
+		return "[]"
+	case "number":
+		return "2"
+	case "string":
+		return `"version 2"`
+	case "true":
+		return "true"
+	case "false":
+		return "false"
+	case "onlyversion0":
+		return `{"version":0}`
+	case "onlyversion1":
+		return `{"version":1}`
+	case "onlyversion2":
+		return `{"version":2}`
+	case "onlyversion9":
+		return `{"version":9}`
+	case "onlyversionnull":
+		return `{"version":null}`
+	case "onlyversionstr":
+		return `{"version":"2"}`
+	case "trailing":
+		return v2 + "\n-- end of configuration --\n"
+	case "concat":
+		return v2 + "\n" + v1 + "\n"
+	case "trailingnull":
+		return v2 + "\nnull\n"
+	case "arrayofdocs":
+		return "[" + v2 + "," + v1 + "]"
+	case "arrayofnull":
+		return "[null]"
+	case "quoted":
+		b, _ := json.Marshal(v2)
+		return string(b)
+	case "bom":
+		return "\xef\xbb\xbf" + v2
+	case "truncated":
+		return v2[:len(v2)/2]
+	case "valid2":
+		return v2
+	case "valid1":
+		return v1
+	}
+	panic("c16 harness: unknown document shape " + kind)
+}
+
 func init() {
-	c16Register("execv2", func(_ context.Context, sh map[string]string) c16Res { return c16RunExec(c16ExecV2Doc(sh)) })
-	c16Register("execv1", func(_ context.Context, sh map[string]string) c16Res { return c16RunExec(c16ExecV1Doc(sh)) })
+	c16Register("execv2", func(ctx context.Context, sh map[string]string) c16Res { return c16RunExec(ctx, c16ExecV2Doc(sh)) })
+	c16Register("execv1", func(ctx context.Context, sh map[string]string) c16Res { return c16RunExec(ctx, c16ExecV1Doc(sh)) })
+	c16Register("execdoc", func(ctx context.Context, sh map[string]string) c16Res {
+		return c16RunExec(ctx, c16WholeDoc(sh["doc"], c16Relay1))
+	})
 }
